@@ -4,7 +4,9 @@ CONSTANTS
   Vals = {0, 5, 6}
   Def = 9
   Variant = "read_before"
-  MaxEvents = 3
+  MaxEvents = 4
+  MaxWrites = 3
 CONSTRAINT Bound
+VIEW MCView
 INVARIANTS View NoStaleCallback DirtyListDrains
 CHECK_DEADLOCK FALSE
